@@ -34,8 +34,8 @@ ASSUMPTIONS = [
     "a sentinel still present after 20 s while the tracker is alive counts as 'not deleted at zero'; a dead tracker as 'tracker stopped'",
 ]
 SHARDS = {"quick": 10, "thorough": 14}
-FLOORS = {"quick": {"e2e_runs": 6, "scripts": 120, "requests_checked": 1500, "malformed_requests": 200, "clients_killed": 40, "deletions_at_zero": 100, "zero_reached_while_path_missing": 40, "created_again_after_zero_while_missing": 30, "requests_longer_than_4000_bytes": 60, "requests_under_the_other_resource_type": 25},
-          "thorough": {"e2e_runs": 50, "scripts": 2500, "requests_checked": 40000, "malformed_requests": 4000, "clients_killed": 800, "deletions_at_zero": 2000, "zero_reached_while_path_missing": 800, "created_again_after_zero_while_missing": 600, "requests_longer_than_4000_bytes": 1200}}
+FLOORS = {"quick": {"e2e_runs": 6, "scripts": 120, "requests_checked": 1500, "malformed_requests": 200, "clients_killed": 40, "deletions_at_zero": 100, "zero_reached_while_path_missing": 40, "created_again_after_zero_while_missing": 30, "requests_longer_than_4000_bytes": 60, "requests_under_the_other_resource_type": 25, "clients_ended_by_a_group_signal": 16, "group_signals_sent_right_after_the_tracker_was_spawned": 5},
+          "thorough": {"e2e_runs": 50, "scripts": 2500, "requests_checked": 40000, "malformed_requests": 4000, "clients_killed": 800, "deletions_at_zero": 2000, "zero_reached_while_path_missing": 800, "created_again_after_zero_while_missing": 600, "requests_longer_than_4000_bytes": 1200, "clients_ended_by_a_group_signal": 160, "group_signals_sent_right_after_the_tracker_was_spawned": 50}}
 CLIENT = os.path.join(harness.VERIF, "checks", "c20_client.py")
 
 
@@ -49,6 +49,8 @@ def cases(tier, seed):
         yield dict(i=i)
     for i in range(10 if tier == "quick" else 80):
         yield dict(i=i, e2e=True)
+    for i in range(24 if tier == "quick" else 240):
+        yield dict(i=i, sig=True)
 
 
 def pid_alive(pid):
@@ -151,6 +153,86 @@ def run_e2e(case, ctx):
         shutil.rmtree(d, ignore_errors=True)
 
 
+def run_sig(case, ctx):
+    """"killed" as a terminal or `killall` does it: the client's whole process group - the tracker is a member - receives
+    SIGINT or SIGTERM, at a seeded delay after the registrations were written (delay 0: the tracker is still starting
+    up and has the signal pending behind the mask it inherited).  The client is gone afterwards; whatever it had
+    registered must be deleted."""
+    rng = harness.rng_for(ctx.seed, ID, "sig", case["i"])
+    d = harness.mkscratch("vjl-c20s-")
+    p = None
+    try:
+        res = []
+        for j in range(rng.randint(1, 3)):
+            f = os.path.join(d, f"res{j}.bin")
+            open(f, "wb").write(b"x" * 10)
+            res.append((f, "file"))
+        if rng.random() < 0.6:
+            fo = os.path.join(d, "dir0")
+            os.makedirs(fo)
+            open(os.path.join(fo, "in0.bin"), "wb").write(b"y")
+            res.append((fo, "folder"))
+            if rng.random() < 0.5:
+                res.append((os.path.join(fo, "in0.bin"), "file"))
+        sig = ["SIGTERM", "SIGINT"][case["i"] % 2]
+        delay = [0, 0, 0.002, 0.01, 0.05, 0.3][(case["i"] // 2) % 6]
+        warm = rng.choice([0, 0, 0.3]) if delay else 0
+        cfg = dict(dir=d, resources=res, signal=sig, delay=delay, warm=warm)
+        cf = os.path.join(d, "cfg.json")
+        with open(cf, "w") as f:
+            json.dump(cfg, f)
+        log = open(os.path.join(d, "child.log"), "wb")
+        p = subprocess.Popen([harness.PY, os.path.join(harness.VERIF, "checks", "c20_sig_child.py"), cf], stdin=subprocess.DEVNULL, stdout=log, stderr=log,
+                             env=harness.child_env(), start_new_session=True)
+        ctx.evaluated()
+        desc = dict(signal=sig, delay=delay, warm=warm, resources=[[os.path.basename(a), b] for a, b in res])
+        try:
+            p.wait(60)
+        except subprocess.TimeoutExpired:
+            ctx.inconclusive("sig-child-stuck", desc)
+            return
+        log.close()
+        if not os.path.exists(os.path.join(d, "tracker.pid.done")):
+            ctx.inconclusive("sig-child-did-not-register", open(os.path.join(d, "child.log"), errors="replace").read()[-400:])
+            return
+        tpid = int(open(os.path.join(d, "tracker.pid.done")).read())
+        expected_rc = -signal.SIGTERM if sig == "SIGTERM" else 1
+        if p.returncode not in (expected_rc, -signal.SIGINT):
+            ctx.inconclusive("sig-child-ended-otherwise", dict(desc, rc=p.returncode, log=open(os.path.join(d, "child.log"), errors="replace").read()[-300:]))
+            return
+        ctx.count("clients_ended_by_a_group_signal")
+        if delay == 0:
+            ctx.count("group_signals_sent_right_after_the_tracker_was_spawned")
+        t0 = time.monotonic()
+        left = [a for a, _ in res if os.path.lexists(a)]
+        while left and time.monotonic() - t0 < 20 and pid_alive(tpid):
+            time.sleep(0.02)
+            left = [a for a, _ in res if os.path.lexists(a)]
+        if left and pid_alive(tpid):
+            t0 = time.monotonic()
+            while left and time.monotonic() - t0 < 10:
+                time.sleep(0.05)
+                left = [a for a, _ in res if os.path.lexists(a)]
+            if left:
+                ctx.inconclusive("sig-tracker-still-running", dict(desc, left=[os.path.basename(x) for x in left]))
+                return
+        time.sleep(0.05)
+        left = [a for a, _ in res if os.path.lexists(a)]
+        ctx.sig(("sig", sig, delay, bool(warm), len(res)))
+        if left:
+            ctx.violation(f"group-signal:registered-resources-leaked:{sig}:{'at-tracker-start-up' if delay < 0.02 and not warm else 'later'}",
+                          f"the client registered {len(res)} resources and its process group then received {sig} ({delay}s later); the client is gone, "
+                          f"the tracker process (pid {tpid}) is gone too and {len(left)} registered resources are still on disk: {[os.path.basename(x) for x in left]}",
+                          dict(desc, left=[os.path.basename(x) for x in left], tracker_log=open(os.path.join(d, "child.log"), errors="replace").read()[-300:]))
+    finally:
+        if p is not None:
+            try:
+                harness.kill_session(p.pid)
+            except Exception:  # noqa
+                pass
+        shutil.rmtree(d, ignore_errors=True)
+
+
 class Client:
     def __init__(self, wfd, tracker_pid, log):
         self.p = subprocess.Popen([harness.PY, CLIENT, str(wfd), str(tracker_pid)], stdin=subprocess.PIPE, stdout=subprocess.PIPE,
@@ -182,6 +264,8 @@ class Client:
 def run_case(case, ctx):
     if case.get("e2e"):
         return run_e2e(case, ctx)
+    if case.get("sig"):
+        return run_sig(case, ctx)
     rng = harness.rng_for(ctx.seed, ID, case["i"])
     d = harness.mkscratch("vjl-c20-")
     tracker = None
